@@ -1,4 +1,5 @@
 import A2lVerif.Lemmas.PO.Wf
+import A2lVerif.Lemmas.PO.Sib
 /-! # C02 / C01 gap: the invariant of the tagged loop on arbitrary input
 
 `LoopInv` of Lemmas/RT/LoopInv.lean with the canonical relation of the sub-elements made conditional on the position
@@ -27,6 +28,9 @@ structure LInv (e : Env) (arms : List Arm) (P : List OT) (ch : List (List Val)) 
   bound : ∀ g ∈ R, 0 < g.uid ∧ g.uid ≤ q
   canon : ∀ (i j : Nat) (cs : List Val) (ss : List (List OT)) (v : Val) (o : List OT),
     ch[i]? = some cs → sub[i]? = some ss → cs[j]? = some v → ss[j]? = some o → OT.posAll e.code o → Canon e v o
+  /-- every child is in canonical relation to SOME reordering of the siblings below it -/
+  sib : ∀ (i j : Nat) (cs : List Val) (ss : List (List OT)) (v : Val) (o : List OT),
+    ch[i]? = some cs → sub[i]? = some ss → cs[j]? = some v → ss[j]? = some o → ∃ o', OT.SibPL e.code o o' ∧ Canon e v o'
   inP : ∀ (i j : Nat) (ss : List (List OT)) (o : List OT), sub[i]? = some ss → ss[j]? = some o →
     ∃ x ∈ P, x.isCmt = false ∧ OT.itemsOf x = o
   blk : ∀ cs ∈ ch, ∀ v ∈ cs, Val.isBlock v = true
@@ -51,6 +55,10 @@ theorem LInv.init (e : Env) (arms : List Arm) (q : Nat) :
   sorted := List.Pairwise.nil
   bound := by simp
   canon := by
+    intro i j cs ss v o h1 _ h3 _
+    simp only [List.getElem?_map, Option.map_eq_some_iff] at h1
+    obtain ⟨_, _, rfl⟩ := h1; simp at h3
+  sib := by
     intro i j cs ss v o h1 _ h3 _
     simp only [List.getElem?_map, Option.map_eq_some_iff] at h1
     obtain ⟨_, _, rfl⟩ := h1; simp at h3
@@ -107,6 +115,7 @@ theorem LInv.cmtStep {e : Env} {arms : List Arm} {P : List OT} {ch : List (List 
     · have := h.bound g hg; omega
     · simp only [List.mem_singleton] at hg; subst hg; exact ⟨Nat.succ_pos _, Nat.le_refl _⟩
   canon := h.canon
+  sib := h.sib
   inP := by
     intro i j ss o h1 h2
     obtain ⟨x, hx, h3⟩ := h.inP i j ss o h1 h2
@@ -135,6 +144,7 @@ theorem LInv.childStep {e : Env} {arms : List Arm} {P : List OT} {ch : List (Lis
     {cm : List Cmt} {R : List GE} {q q' : Nat} (h : LInv e arms P ch sub cm R q) {i : Nat} {a : Arm}
     (ha : arms[i]? = some a) {cty : Nat} {cinfo : Info} {cfields : List Val} {cch : List (List Val)} {ccm : List Cmt}
     {its : List OT} (hcanon : OT.posAll e.code its → Canon e (.block cty cinfo cfields cch ccm) its)
+    (hsib : ∃ its', OT.SibPL e.code its its' ∧ Canon e (.block cty cinfo cfields cch ccm) its')
     (hord : InOrder e (.block cty cinfo cfields cch ccm) its) (hu1 : q < cinfo.uid)
     (hu2 : cinfo.uid ≤ q') :
     LInv e arms
@@ -214,6 +224,30 @@ theorem LInv.childStep {e : Env} {arms : List Arm} {P : List OT} {ch : List (Lis
         exact hcanon
     · rw [if_neg hji] at h3 h4
       exact h.canon j k cs0 ss0 v o hc0 hs0 h3 h4
+  sib := by
+    intro j k cs ss v o h1 h2 h3 h4
+    obtain ⟨cs0, hc0, rfl⟩ := setAt_get h1
+    obtain ⟨ss0, hs0, rfl⟩ := setAt_get h2
+    have hlen := h.par j cs0 ss0 hc0 hs0
+    by_cases hji : j = i
+    · rw [if_pos hji] at h3 h4
+      by_cases hk : k < cs0.length
+      · rw [List.getElem?_append_left hk] at h3
+        rw [List.getElem?_append_left (by omega)] at h4
+        exact h.sib j k cs0 ss0 v o hc0 hs0 h3 h4
+      · have hk' : k = cs0.length := by
+          have : k < (cs0 ++ [Val.block cty cinfo cfields cch ccm]).length := (List.getElem?_eq_some_iff.1 h3).1
+          simp at this; omega
+        subst hk'
+        rw [List.getElem?_append_right (Nat.le_refl _)] at h3
+        rw [List.getElem?_append_right (by omega)] at h4
+        simp only [Nat.sub_self, List.getElem?_cons_zero, Option.some.injEq] at h3
+        rw [← hlen] at h4
+        simp only [Nat.sub_self, List.getElem?_cons_zero, Option.some.injEq] at h4
+        subst h3; subst h4
+        exact hsib
+    · rw [if_neg hji] at h3 h4
+      exact h.sib j k cs0 ss0 v o hc0 hs0 h3 h4
   blk := by
     intro cs hcs v hv
     obtain ⟨j, hj⟩ := List.getElem?_of_mem hcs
@@ -301,6 +335,43 @@ theorem LInv.toCanon {e : Env} {arms : List Arm} {items : List OT} {ch : List (L
     exact hps
   rw [hsort, h.rot] at hc
   exact hc
+
+/-- at the end of the loop, WITHOUT position order: the accumulated children and comments are in canonical relation to
+    a reordering of the items read in which only position-restricted items change places (at every depth): the order
+    `sortGE` gives them — sorting by key restores the input order, `apply_position_restrictions` refills the restricted
+    slots -/
+theorem LInv.toSibCanon {e : Env} {arms : List Arm} {items : List OT} {ch : List (List Val)} {sub : List (List (List OT))}
+    {cm : List Cmt} {R : List GE} {q : Nat} (h : LInv e arms items ch sub cm R q)
+    {ty : Nat} {isB : Bool} {its : List ItemTy} (hl : e.table.lookup ty = some (.block isB its arms true))
+    (info : Info) (fields : List Val) (hfs : ∀ f ∈ fields, FieldShape f) :
+    ∃ items', OT.SibPL e.code items items' ∧ Canon e (.block ty info fields ch cm.reverse) items' := by
+  obtain ⟨sub', s1, s2, s3, s4⟩ := exists_canon_sub e ch sub h.len2 h.par h.sib
+  have hc := Canon.mk (e := e) (info := info) (fields := fields) (comments := cm.reverse) hl sub' (fun _ => h.len1)
+    s1 s2 s3 h.blk (by intro x hx; exact h.cmi x (List.mem_reverse.1 hx)) hfs
+  simp only [if_true] at hc
+  refine ⟨_, ?_, hc⟩
+  -- the new group entries, in input order
+  have hall : All2 (GERel e.code) (gesFrom e.symbols 0 arms ch sub ++ cm.reverse.map cmtGE)
+      (gesFrom e.symbols 0 arms ch sub' ++ cm.reverse.map cmtGE) :=
+    (s4 0 arms).append (All2.refl (GERel.refl e.code) _)
+  obtain ⟨R', hp', hR'⟩ := All2.perm_transport h.perm hall
+  have huid : R'.map (·.uid) = R.map (·.uid) := GERel.uids hR'
+  have hsorted' : R'.Pairwise (fun a b => a.uid < b.uid) := by
+    have : (R'.map (·.uid)).Pairwise (· < ·) := by rw [huid]; exact List.pairwise_map.2 h.sorted
+    exact List.pairwise_map.1 this
+  have hpos' : ∀ g ∈ R', 0 < g.uid := by
+    intro g hg
+    have : g.uid ∈ R.map (·.uid) := by rw [← huid]; exact List.mem_map_of_mem hg
+    obtain ⟨g0, hg0, he⟩ := List.mem_map.1 this
+    rw [← he]; exact (h.bound g0 hg0).1
+  have hsort : sortGE e.code (gesFrom e.symbols 0 arms ch sub' ++ cm.reverse.map cmtGE) =
+      applyPosG (fun g => g.ot.pos e.code) R' := by
+    unfold sortGE
+    rw [mergeSort_of_perm_uid hp' hsorted' hpos']
+  rw [hsort, ← applyPosG_map (fun g : GE => g.ot) (fun g => g.ot.pos e.code) (OT.pos e.code) (fun _ => rfl)]
+  refine .trans _ (R'.map (·.ot)) _ ?_ (applyPosG_sibP e.code _)
+  rw [← h.rot]
+  exact OT.SibPL.of_all (hR'.map _ _ (fun _ _ hab => hab.2.2))
 
 /-- at the end of the loop: the accumulated lists stand in the order of the items read -/
 theorem LInv.toInOrder {e : Env} {arms : List Arm} {items : List OT} {ch : List (List Val)} {sub : List (List (List OT))}
